@@ -212,3 +212,29 @@ Proof.
   rewrite Efr. split; [exact Hvalid|]. split; [exact Hpcm|].
   intros ops Hns Hops. rewrite <- Hpcm. apply FlacReaders.Props_C07.C07_sample_reader; assumption.
 Qed.
+
+(* C03 + C07: a file made of ANY valid frame trees (every legal syntactic alternative, not only this encoder's) behind a
+   STREAMINFO and any further metadata blocks: the reader front-end model delivers the RFC semantics of the frames *)
+From FlacCodec Require File Interrupted Spec Struct.
+Theorem valid_file_is_read : forall si others fs allb (e : Ser.endian) (rp : FlacReaders.RNum.profile),
+  FlacCodec.File.si_ok si -> FlacCodec.File.blocks_ok others ->
+  Forall (FlacCodec.Interrupted.frame_ok si) fs -> FlacCodec.Interrupted.frames_bytes fs = Some allb ->
+  (A.si_total si = 0 \/ FlacCodec.Interrupted.total_samples fs = A.si_total si) ->
+  let pcm := concat (map (fun f => CS.interleave_frame (FlacCodec.Struct.sem_frame f)) fs) in
+  N.of_nat (length pcm) < 2 ^ 36 ->
+  exists F, RS.valid_file F /\ RS.pcm F = pcm /\
+    forall ops, RS.no_sseek ops -> Forall RS.sop_ok (snd (FlacReaders.Seek.sample_run F ops)) ->
+      let atr := map (RS.abs_s F) (snd (FlacReaders.Seek.sample_run F ops)) in
+      Forall (RS.cur_ok pcm) atr /\ RS.chained 0 atr (RS.spos F (fst (FlacReaders.Seek.sample_run F ops))) /\
+      RS.exactly_once pcm atr.
+Proof.
+  intros si others fs allb e rp Hsi Hok Hfs Hb Ht pcm Hlen.
+  assert (Hdec : CS.dec_stream (FlacCodec.File.file_of si others allb) =
+                 Some (si, map (fun f => CS.interleave_frame (FlacCodec.Struct.sem_frame f)) fs, CS.EndEof)).
+  { unfold CS.dec_stream. rewrite (FlacCodec.File.read_file_metadata si others allb Hsi Hok).
+    rewrite (FlacCodec.Interrupted.complete_stream si fs allb (S (length allb)) 0 [] Hfs Hb); [reflexivity| |lia].
+    destruct Ht as [Ht|Ht]; [left; exact Ht|right; lia]. }
+  destruct Hsi as (_ & _ & _ & _ & _ & C1 & _ & B1 & B32 & _).
+  destruct (decoded_file_is_read _ si _ e rp Hdec C1 (conj B1 B32) Hlen) as (blocks & _ & Hv & Hp & H).
+  eexists. split; [exact Hv|]. split; [exact Hp|exact H].
+Qed.
